@@ -15,7 +15,7 @@ import os, re, sys
 sys.path.insert(0, os.path.dirname(os.path.dirname(__file__)))
 import std_specs as S
 
-PROPERTIES = ["C11", "C09"]
+PROPERTIES = ["C11", "C09", "C08"]
 MIN_VERIFIED = 14
 FB = 'src/operator/start/binary.rs'
 FSI = 'src/operator/start/simple.rs'
